@@ -17,5 +17,5 @@ class Search(FilterFunction):
         try:
             # re.search caches compiled patterns internally
             return bool(re.search(pattern, string))
-        except (TypeError, re.error, OverflowError):
+        except (TypeError, re.error, OverflowError, ValueError):
             return False
